@@ -11,6 +11,8 @@
          %t bool -> true|false         sdkmath.Int.String() -> decimal, "<nil>" for the nil Int
          %s []string -> "[a b c]"      %v []sdkmath.Int -> "[1 2 3]"
          %v []BridgeValidator -> "[{power addr} {power addr}]"
+         %x string -> lowercase hex of the bytes (not used by the current formats; the proposed repair of
+                      MsgBridgeTokenClaim uses it)
      - [wfb]: the character-level consequences of ValidateBasic (per generated class),
      - [check_fmt]: a syntactic criterion on a format under which equal pre-images force
        equal execution-relevant fields (soundness: proofs/P_ClaimHash.v),
@@ -41,7 +43,8 @@ Inductive fty :=
 Inductive tok :=
 | Lit (s : bytes)
 | U64 (f : string) | Str (f : string) | IntDec (f : string) | Bool (f : string)
-| StrList (f : string) | IntList (f : string) | Members (f : string).
+| StrList (f : string) | IntList (f : string) | Members (f : string)
+| HexStr (f : string).   (* %x of a string: two lowercase hex digits per byte *)
 
 Record spec := {
   s_name : string;
@@ -116,6 +119,10 @@ Definition r_list (l : list bytes) : bytes :=
 Definition r_member (m : Z * bytes) : bytes :=
   123 :: r_dec (fst m) ++ 32 :: snd m ++ [125].
 
+Definition hexd (n : Z) : Z := if n <? 10 then 48 + n else 87 + n.
+Fixpoint r_hex (s : bytes) : bytes :=
+  match s with [] => [] | b :: r => hexd (b / 16) :: hexd (b mod 16) :: r_hex r end.
+
 Definition render_tok (c : claim) (t : tok) : bytes :=
   match t with
   | Lit s => s
@@ -126,6 +133,7 @@ Definition render_tok (c : claim) (t : tok) : bytes :=
   | StrList f => match get f c with VStrList l => r_list l | _ => [] end
   | IntList f => match get f c with VIntList l => r_list (map r_oint l) | _ => [] end
   | Members f => match get f c with VMembers l => r_list (map r_member l) | _ => [] end
+  | HexStr f => match get f c with VStr s => r_hex s | _ => [] end
   end.
 
 Fixpoint render (fm : list tok) (c : claim) : bytes :=
@@ -143,6 +151,8 @@ Definition is_hex (b : Z) : bool :=
 (* characters of a rendered sdkmath.Int: digits, '-', and "<nil>" *)
 Definition is_intch (b : Z) : bool :=
   is_digit b || (b =? 45) || (b =? 60) || (b =? 62) || (b =? 110) || (b =? 105) || (b =? 108).
+
+Definition is_byte (b : Z) : bool := (0 <=? b) && (b <? 256).
 
 Definition len (s : bytes) : Z := Z.of_nat (List.length s).
 
@@ -162,7 +172,7 @@ Definition str_ok (cl : scls) (s : bytes) : bool :=
 Definition val_ok (ty : fty) (v : fval) : bool :=
   match ty, v with
   | TU64, VU64 n => 0 <=? n
-  | TStr cl, VStr s => str_ok cl s
+  | TStr cl, VStr s => forallb is_byte s && str_ok cl s
   | TInt INonNeg, VInt (Some z) => 0 <=? z
   | TInt IAny, VInt _ => true
   | TBool, VBool _ => true
@@ -210,6 +220,7 @@ Definition talpha (sp : spec) (t : tok) : Z -> bool :=
   | Members f => match fty_of sp f with
                  | Some (TMembers cl) => fun b => is_digit b || calpha cl b || is_membch b
                  | _ => fun _ => true end
+  | HexStr _ => is_hex
   end.
 
 (* the token is applied to a field of the matching type, and list renderings are unambiguous *)
@@ -227,6 +238,7 @@ Definition tok_ok (sp : spec) (t : tok) : bool :=
   | Members f => match fty_of sp f with
                  | Some (TMembers cl) => negb (calpha cl 125)
                  | _ => false end
+  | HexStr f => match fty_of sp f with Some (TStr _) => true | _ => false end
   end.
 
 (* the token is the last one, or is followed by a literal whose first byte cannot occur in it *)
@@ -260,7 +272,7 @@ Fixpoint chk (sp : spec) (fm : list tok) : bool :=
 Definition tok_field (t : tok) : option string :=
   match t with
   | Lit _ => None
-  | U64 f | Str f | IntDec f | Bool f | StrList f | IntList f | Members f => Some f
+  | U64 f | Str f | IntDec f | Bool f | StrList f | IntList f | Members f | HexStr f => Some f
   end.
 
 Fixpoint fmt_fields (fm : list tok) : list string :=
@@ -284,9 +296,11 @@ Definition injective (sp : spec) : Prop :=
   forall c1 c2, wf sp c1 -> wf sp c2 ->
     preimage sp c1 = preimage sp c2 -> relevant sp c1 = relevant sp c2.
 
+(* two valid claims FOR THE SAME EVENT NONCE (the attestation key is nonce || hash) that differ in a relevant
+   field and have the same pre-image *)
 Definition refuted (sp : spec) : Prop :=
-  exists c1 c2, wf sp c1 /\ wf sp c2 /\ relevant sp c1 <> relevant sp c2 /\
-                preimage sp c1 = preimage sp c2.
+  exists c1 c2, wf sp c1 /\ wf sp c2 /\ get "EventNonce" c1 = get "EventNonce" c2 /\
+                relevant sp c1 <> relevant sp c2 /\ preimage sp c1 = preimage sp c2.
 
 (* decided from the generated format: holds, or is refuted by a concrete pair *)
 Definition verdict (sp : spec) : Prop :=
@@ -319,8 +333,11 @@ Definition fval_eqb (a b : fval) : bool :=
   | _, _ => false
   end.
 
+Definition nonce_eqb (c1 c2 : claim) : bool :=
+  match get "EventNonce" c1, get "EventNonce" c2 with VU64 a, VU64 b => a =? b | _, _ => false end.
+
 Definition collide_b (sp : spec) (c1 c2 : claim) : bool :=
-  wfb sp c1 && wfb sp c2 && negb (list_eqb fval_eqb (relevant sp c1) (relevant sp c2))
+  wfb sp c1 && wfb sp c2 && nonce_eqb c1 c2 && negb (list_eqb fval_eqb (relevant sp c1) (relevant sp c2))
   && bytes_eqb (preimage sp c1) (preimage sp c2).
 
 Definition addr0 : bytes := 48 :: 120 :: repeat 48 40.                       (* 0x000...0 *)
@@ -366,8 +383,19 @@ Fixpoint cand_split (sp : spec) (fm : list tok) : list (claim * claim) :=
   | [] => []
   end.
 
+(* (c) two decimals printed back to back: 1|23 vs 12|3 *)
+Fixpoint cand_shift (sp : spec) (fm : list tok) : list (claim * claim) :=
+  match fm with
+  | U64 f :: ((U64 g :: _) as r) =>
+      let base := dflt_claim sp in
+      (set f (VU64 1) (set g (VU64 23) base), set f (VU64 12) (set g (VU64 3) base)) :: cand_shift sp r
+  | _ :: r => cand_shift sp r
+  | [] => []
+  end.
+
 Definition cex (sp : spec) : option (claim * claim) :=
-  find (fun p => collide_b sp (fst p) (snd p)) (cand_missing sp ++ cand_split sp (s_fmt sp)).
+  find (fun p => collide_b sp (fst p) (snd p))
+       (cand_missing sp ++ cand_split sp (s_fmt sp) ++ cand_shift sp (s_fmt sp)).
 
 Definition cex_found (sp : spec) : bool :=
   match cex sp with Some _ => true | None => false end.
